@@ -4,6 +4,7 @@ import AsmjitVerif.Model.ArgShuffle
 import AsmjitVerif.Spec.Machine
 import AsmjitVerif.Lemmas.C06ShuffleTop
 import Driver.Common
+import Driver.InvokeC06
 open AsmjitVerif.CallConv
 namespace Driver.C06
 
@@ -265,6 +266,9 @@ def step (_ : Unit) (line : String) : Unit × String :=
   | "monsh" :: rest => ((), Shuffle.monStep rest)
   | "shm" :: rest => ((), Shuffle.shStep rest)
   | "wf0" :: rest => ((), Shuffle.wfStep rest)
+  | "ivm" :: rest => ((), Driver.C06I.ivmStep rest)
+  | "moniv" :: rest => ((), Driver.C06I.monStep rest)
+  | "monivx" :: rest => ((), Driver.C06I.monIvx rest)
   | _ => ((), "bad-op")
 
 def main : IO Unit := do
